@@ -448,8 +448,15 @@ def run_jmc(c):
     naxes = a.array.ndim - len(shape)
     ck.check(C.peq_all(a.array, b.array, naxes, 1e-7), f"commute:{tag}", C.short((a.array.tolist(), b.array.tolist())))
     A = a.array.reshape((N,) + a.array.shape[len(shape):])
+    elements = list(t) if (tcoll and c["m"][0] % 2) else None  # the single maps: elements of the collection (iteration or indexing)
     for pos in range(N):
-        tl = Transformation(mats[pos % k] if tcoll else mats[0])
+        if tcoll:
+            tl = elements[pos % k] if elements is not None else t[pos % k]
+            if not isinstance(tl, Transformation):
+                ck.check(False, f"commute:{tag}:element-class", type(tl).__name__)
+                break
+        else:
+            tl = t
         r, f = call("single", lambda: tl * op(*singles[pos]))
         if f:
             ck.add(f)
